@@ -6,10 +6,10 @@
 (* the output is a well-formed code file whose data and entry records are, in input order, exactly the *)
 (* entry records and the data records whose CPU id passes -f, with segment, granularity, address and   *)
 (* payload unchanged.                                                                                  *)
-(* A case: [files |-> <<bytes of input file 1, ...>>, filt |-> <<cpu ids>> (<<>> = no -f),            *)
-(*          quiet |-> BOOLEAN (-q)].                                                                   *)
+(* A case: [files |-> <<bytes of input file 1, ...>>, fops |-> the -f / +f operations in effect order *)
+(*          (FilterList.tla; <<>> = none), quiet |-> BOOLEAN (-q)].                                    *)
 (* An observation: [rc |-> exit status, bytes |-> target file].                                        *)
-EXTENDS CodeFileBytes, TLC
+EXTENDS CodeFileBytes, FilterList, TLC
 
 Devs == {"quiet_stale_errno"}   \* WriteRecordHeader calls ChkIO when fwrite SUCCEEDS (`if (fwrite(..))`); ChkIO looks at
                                 \* errno, which is only cleared by the progress message that -q suppresses: with -q the
@@ -20,7 +20,7 @@ Creator == <<66, 73, 78, 68, 47, 67, 32, 49, 46, 52, 50>>          \* "BIND/C 1.
 (***************************************************************************)
 (* operational                                                             *)
 (***************************************************************************)
-FilterOK(filt, cpu) == filt = <<>> \/ cpu \in Range(filt)
+FilterOK(fb, cpu) == FilterPasses(fb, cpu)            \* fb = FilterState(c.fops), the FilterBytes array
 \* ReadRecordHeader + the reads of ProcessFile: the tool's reader is the grammar of CodeFileBytes, plus one
 \* deviation: `ftell + InpLen >= FileSize - 1` demands at least one creator character behind every data record
 ReaderRejects(b) == LET d == Decode(b) IN ~d.ok \/ (d.creator = <<>> /\ \E i \in 1..Len(d.items) : IsData(d.items[i]))
@@ -33,18 +33,17 @@ CopyItem(filt, out, it) ==
            \o LE4(it.start) \o LE2(Len(it.data)) \o it.data
 ProcessFile(filt, out, b) == FoldLeft(LAMBDA o, it : CopyItem(filt, o, it), out, Decode(b).items)
 CopiesData(c) == \E i \in 1..Len(c.files) : \E j \in 1..Len(Decode(c.files[i]).items) :
-                    LET it == Decode(c.files[i]).items[j] IN IsData(it) /\ FilterOK(c.filt, it.cpu)
+                    LET it == Decode(c.files[i]).items[j] IN IsData(it) /\ FilterOK(FilterState(c.fops), it.cpu)
 Run(D, c) ==
   IF \E i \in 1..Len(c.files) : ReaderRejects(c.files[i]) THEN [rc |-> 3, bytes |-> <<>>]     \* FormatError
   ELSE IF "quiet_stale_errno" \in D /\ c.quiet /\ CopiesData(c) THEN [rc |-> 2, bytes |-> <<>>]
-  ELSE [rc |-> 0, bytes |-> FoldLeft(LAMBDA o, b : ProcessFile(c.filt, o, b), Magic, c.files) \o <<0>> \o Creator]
+  ELSE [rc |-> 0, bytes |-> FoldLeft(LAMBDA o, b : ProcessFile(FilterState(c.fops), o, b), Magic, c.files) \o <<0>> \o Creator]
 
 (***************************************************************************)
 (* declarative                                                             *)
 (***************************************************************************)
 InputItems(c) == FoldLeft(LAMBDA acc, b : acc \o AbsSeq(Decode(b).items), <<>>, c.files)
-Passes(filt, it) == IsEntry(it) \/ filt = <<>> \/ it.cpu \in Range(filt)
-Kept(c) == SelectSeq(InputItems(c), LAMBDA it : Passes(c.filt, it))
+Kept(c) == SelectSeq(InputItems(c), LAMBDA it : IsEntry(it) \/ FPasses(c.fops, it.cpu))
 \* the manual defines the outcome when every input is a well-formed code file of the documented grammar
 \* ("the string contains the name of the program that created the file": a creator record is never empty)
 Definite(c) == \A i \in 1..Len(c.files) : WellFormedBytes(c.files[i]) /\ Decode(c.files[i]).creator # <<>>
